@@ -131,12 +131,14 @@ fn real_do(f: impl FnOnce() -> Result<Vec<u32>, AllocError>) -> Real {
 
 /// The invariants that must hold after *every* operation, whatever happened in it.
 pub fn check_ledger<E: Elem>(v: &dyn VecCore<E>, ctx: &mut VCtx, held: &[u32]) {
+    // an operation during which the base allocator refused memory answers to C07 ("nothing is leaked or double-dropped")
+    let prop: &'static str = if ctx.refused() { "C07" } else { "C06" };
     let lv = tr::ledger_view();
     if !lv.double_drops.is_empty() {
-        ctx.viol("C06", format!("value_dropped_twice:{}", v.family()), format!("ids {:?}", &lv.double_drops[..lv.double_drops.len().min(6)]));
+        ctx.viol(prop, format!("value_dropped_twice:{}", v.family()), format!("ids {:?}", &lv.double_drops[..lv.double_drops.len().min(6)]));
     }
     if !lv.use_after_drop.is_empty() {
-        ctx.viol("C06", format!("value_used_after_drop:{}", v.family()), format!("ids {:?}", &lv.use_after_drop[..lv.use_after_drop.len().min(6)]));
+        ctx.viol(prop, format!("value_used_after_drop:{}", v.family()), format!("ids {:?}", &lv.use_after_drop[..lv.use_after_drop.len().min(6)]));
     }
     tr::clear_incidents();
     if E::TRACKED && !E::ZST {
@@ -144,12 +146,12 @@ pub fn check_ledger<E: Elem>(v: &dyn VecCore<E>, ctx: &mut VCtx, held: &[u32]) {
         in_coll.extend_from_slice(held);
         in_coll.sort_unstable();
         if in_coll.windows(2).any(|w| w[0] == w[1]) {
-            ctx.viol("C06", format!("value_owned_twice:{}", v.family()), format!("ids in collection {:?}", in_coll));
+            ctx.viol(prop, format!("value_owned_twice:{}", v.family()), format!("ids in collection {:?}", in_coll));
         }
         let live: Vec<u32> = lv.live_ids.iter().copied().filter(|i| !ctx.leaked.contains(i)).collect();
         let dead_in_coll: Vec<u32> = in_coll.iter().copied().filter(|i| !lv.live_ids.contains(i)).collect();
         if !dead_in_coll.is_empty() {
-            ctx.viol("C06", format!("dropped_value_still_in_collection:{}", v.family()), format!("ids {:?}", dead_in_coll));
+            ctx.viol(prop, format!("dropped_value_still_in_collection:{}", v.family()), format!("ids {:?}", dead_in_coll));
         }
         let lost: Vec<u32> = live.iter().copied().filter(|i| !in_coll.contains(i)).collect();
         if !lost.is_empty() {
@@ -159,7 +161,7 @@ pub fn check_ledger<E: Elem>(v: &dyn VecCore<E>, ctx: &mut VCtx, held: &[u32]) {
                     ctx.leaked.insert(*i);
                 }
             } else {
-                ctx.viol("C06", format!("value_lost:{}", v.family()), format!("ids {:?} are neither in the collection nor dropped", &lost[..lost.len().min(8)]));
+                ctx.viol(prop, format!("value_lost:{}", v.family()), format!("ids {:?} are neither in the collection nor dropped", &lost[..lost.len().min(8)]));
                 for i in &lost {
                     ctx.leaked.insert(*i);
                 }
@@ -172,7 +174,7 @@ pub fn check_ledger<E: Elem>(v: &dyn VecCore<E>, ctx: &mut VCtx, held: &[u32]) {
                 ctx.leaked_z += lv.z_live - expect;
             } else {
                 ctx.viol(
-                    "C06",
+                    prop,
                     format!("{}:{}", if lv.z_live < expect { "zst_value_dropped_twice" } else { "zst_value_lost" }, v.family()),
                     format!("live count {} but {} in the collection (+{} leaked)", lv.z_live, v.len(), ctx.leaked_z),
                 );
